@@ -56,6 +56,9 @@ type zzC10Univ struct {
 	Far       int      `json:"far"`
 	ReqHosts  []string `json:"reqhosts"`
 	StatHosts []string `json:"stathosts"`
+	// BadHosts are the request names that are to be concretised as host names
+	// the server cannot use.
+	BadHosts []string `json:"badhosts"`
 	// LeaseT is the configured lease time in clock ticks of zzC10Tick.
 	LeaseT int `json:"leaset"`
 
@@ -65,6 +68,7 @@ type zzC10Univ struct {
 	macOf   map[string]net.HardwareAddr
 	absMAC  map[string]string
 	hostOf  map[string]string
+	genOf   map[string]int
 	absHost map[string]string
 }
 
@@ -115,17 +119,41 @@ func (u *zzC10Univ) init(seed int64) {
 	for _, h := range append(append([]string{}, u.ReqHosts...), u.StatHosts...) {
 		names[h] = true
 	}
+	bad := map[string]bool{}
+	for _, h := range u.BadHosts {
+		bad[h] = true
+	}
+	// Names no server can use: FQDN with the trailing dot, empty label, label
+	// of 64 octets.
+	unusable := []string{"workstation.example.org.", "work..station", strings.Repeat("a", 64)}
 	for h := range names {
-		if h == "" {
+		switch {
+		case h == "":
 			continue
+		case bad[h]:
+			u.hostOf[h] = unusable[int(seed%3+3)%3]
+
+			continue
+		case len(h) > 1 && h[0] == 'g':
+			// A client that calls itself like the name the server derives
+			// from an address ("g<address>" in the specification).
+			if a, err := strconv.Atoi(h[1:]); err == nil {
+				if ip, ok := u.ipOf[a]; ok {
+					u.hostOf[h] = aghnet.GenerateHostname(ip)
+
+					continue
+				}
+			}
 		}
 		c := fmt.Sprintf("%s-cli%d", h, seed%89)
 		u.hostOf[h] = c
 		u.absHost[c] = h
 	}
+	u.genOf = map[string]int{}
 	for a, ip := range u.ipOf {
 		g := aghnet.GenerateHostname(ip)
 		u.absHost[g] = "g" + strconv.Itoa(a)
+		u.genOf[g] = a
 	}
 }
 
@@ -148,6 +176,15 @@ func (u *zzC10Univ) aMAC(hw net.HardwareAddr) (m string) {
 func (u *zzC10Univ) aHost(h string) (a string) {
 	if a, ok := u.absHost[h]; ok {
 		return a
+	}
+	// Another name derived from an address: the derived name with a numeric
+	// suffix ("u<address>" in the specification).
+	if i := strings.LastIndexByte(h, '-'); i > 0 {
+		if _, err := strconv.Atoi(h[i+1:]); err == nil {
+			if ad, ok := u.genOf[h[:i]]; ok {
+				return "u" + strconv.Itoa(ad)
+			}
+		}
 	}
 
 	return "?" + h
